@@ -53,6 +53,21 @@ def all_programs(tier):
                             p = _prog(t, [srcL, srcR])
                             p.env_globals = _dx()
                             progs.append(p)
+        # a partition selection *below* operators that read the partition structure of their input (the selection is folded into the
+        # source by the optimiser, so the operator sees a partition-filtered input)
+        if (nrows, nparts) == layouts[0]:
+            srcL3 = Src("L", 5, LCOLS, 3)
+            sels = ["[[1]]", "[[1, 0]]", "[[0, 2]]", "[[2, 1]]"]
+            for sel in sels:
+                for tmpl, ordered in (("L.partitions{s}.cumsum()", True), ("(L + 1).partitions{s}.cummax().a", True), ("L.partitions{s}.merge(R, on='a', broadcast=True)", False),
+                                      ("L.partitions{s}.merge(R, on='a', how='left', broadcast=True).e.sum()", False), ("L.partitions{s}.shift(1)", True), ("L.partitions{s}.a.diff()", True),
+                                      ("L.partitions{s}.shuffle('a').c.sum()", False), ("L.partitions{s}.repartition(npartitions=3).a", True), ("L.partitions{s}.groupby('a').c.sum()", False),
+                                      ("dx.concat([L.partitions{s}, L])", True), ("L.partitions{s}.set_index('a', divisions=[-100, 0, 100]).c.sum()", False), ("L.partitions{s}.reset_index()", True)):
+                    text = tmpl.format(s=sel)
+                    srcR2 = Src("R", 3, RCOLS, 2)
+                    p = Program(text, [srcL3, srcR2] if "R" in text else [srcL3], ordered=ordered, family="F01", note="selection-below/" + tmpl.split("}")[1].split("(")[0].strip(".") + sel)
+                    p.env_globals = _dx()
+                    progs.append(p)
         # diamonds: one intermediate, two consumers with different column needs / filters
         for mid in [L] + [m for name in ("filter", "assign", "elem", "rename", "shuffle", "repartition") for m in (FRAME_OPS[name](L) or []) if m is not None]:
             i, f = mid.of("i"), mid.of("f")
